@@ -9,6 +9,9 @@ Streams (all through the REAL PEPit under $PEPIT_REPO):
              sequence of send_* calls (dictionaries, senses, LMI entries), both tracking lists, the objective leaf
              and the length of F vs Model/Collect.v interpreting the plan GENERATED from pep.py, applied to a
              snapshot of the declared model; on the implementation alone: multiset of sent objects = declared
+  shipped-models  the example files of PEPit/examples and the complexified models of tests/: each wc_* function is
+             called with the literal arguments of its __main__ block while PEP.solve is intercepted and routed to the
+             RecordingWrapper; same comparison with Model/Collect.v + multiset oracle on every recorded solve
   cvxpy      the same programs through the real CvxpyWrapper (generate_problem, no solve): every cvxpy
              constraint is evaluated at two random rational symmetric (G, F) and compared with the exact value
              of the PEPit expression it stands for; senses, LMI coupling rows, objective checked
@@ -391,7 +394,7 @@ def snapshot_at_main_variables(pep, snap):
     snap["changed"] = changed
 
 
-def record_solve(pep):
+def record_solve(pep, solve=None):
     """solve through the recording wrapper; returns (snapshot, wrapper)"""
     from . import recording as R
     from PEPit import Expression
@@ -419,7 +422,7 @@ def record_solve(pep):
     try:
         with warnings.catch_warnings():
             warnings.simplefilter("ignore")
-            w, out = R.solve_with(pep, factory)
+            w, out = R.solve_with(pep, factory, solve=solve)
     finally:
         for f, had, orig in patched:
             if had:
@@ -549,6 +552,41 @@ def multiset_check(pep, snap, w):
     return None
 
 
+def regeneration_check(snap):
+    """implementation-only oracle: the class constraints / LMIs a leaf function sent at this solve are the ones its
+    add_class_constraints() generates from its CURRENT samples (nothing kept from an earlier solve, nothing missing).
+    The function's lists and tables are restored afterwards."""
+    for k, fs in enumerate(snap["funcs"]):
+        if not fs["is_leaf"] or "class_cons" not in fs:
+            continue
+        f = fs["obj"]
+        saved = (f.list_of_class_constraints, f.list_of_class_psd, dict(f.tables_of_constraints))
+        try:
+            f.list_of_class_constraints, f.list_of_class_psd = list(), list()
+            with warnings.catch_warnings():
+                warnings.simplefilter("ignore")
+                f.add_class_constraints()
+            pid, xid = C.leaf_maps()
+            cons = [d_cons(c, pid, xid) for c in f.list_of_class_constraints]
+            psd = [d_psd(p, pid, xid) for p in f.list_of_class_psd]
+        finally:
+            f.list_of_class_constraints, f.list_of_class_psd = saved[0], saved[1]
+            f.tables_of_constraints = saved[2]
+        if _plain(cons) != _plain(fs["class_cons"]) or _plain(psd) != _plain(fs["class_psd"]):
+            return dict(kind="class-constraints-sent-differ-from-regenerated", function=k,
+                        cls=type(f).__name__, n_sent=[len(fs["class_cons"]), len(fs["class_psd"])],
+                        n_regenerated=[len(cons), len(psd)])
+    return None
+
+
+def _plain(x):
+    if isinstance(x, Q):
+        return x.v
+    if isinstance(x, (list, tuple)):
+        return [_plain(y) for y in x]
+    return x
+
+
 # ---- cvxpy
 def frac_eval_expr(e, G, F):
     """exact value of a PEPit Expression at (G, F) from its own decomposition dict"""
@@ -649,6 +687,12 @@ def run_program(case_seed, with_cvxpy, two_solves=None):
             warnings.simplefilter("ignore")
             if rng.random() < 0.5:
                 pep.add_constraint(_rand_cons(rng))
+            if rng.random() < 0.6:      # one more step of the method: a leaf function evaluated at a new point
+                from PEPit import Point
+                leaf_fs = [f for f in pep.list_of_functions]
+                f = rng.choice(leaf_fs)
+                f.oracle(C.rand_point(rng, list(Point.list_of_leaf_points)[:3]))
+                desc["extended_between_solves"] = True
     snap, w = record_solve(pep)
     problem = None
     if snap["returned"] is not None:
@@ -657,6 +701,8 @@ def run_program(case_seed, with_cvxpy, two_solves=None):
     lit = coq_model(snap)
     if problem is None:
         problem = multiset_check(pep, snap, w)
+    if problem is None:
+        problem = regeneration_check(snap)
     rows = 0
     if with_cvxpy and problem is None:
         rows, problem = cvxpy_check(pep, rng)
@@ -676,7 +722,7 @@ def stream_programs(tier, seed, corpus):
         seeds.append(base + k)
         k += 1
     cases, keep, problems, cvx_problems = [], [], [], []
-    hist = dict(classes={}, composite=0, partition=0, second_solve=0, lmi_items=0, fresh_leaves=0, metrics={})
+    hist = dict(classes={}, composite=0, partition=0, second_solve=0, extended_between_solves=0, lmi_items=0, fresh_leaves=0, metrics={})
     distinct = set()
     cvx_rows = cvx_progs = 0
     sizes = []
@@ -700,6 +746,7 @@ def stream_programs(tier, seed, corpus):
         hist["composite"] += int(d["composite"])
         hist["partition"] += int(bool(d["partition"]))
         hist["second_solve"] += int(d["second_solve"])
+        hist["extended_between_solves"] += int(bool(d.get("extended_between_solves")))
         hist["lmi_items"] += d["n_lmi"]
         hist["fresh_leaves"] += int(d["fresh"] > 0)
         hist["metrics"][d["n_metrics"]] = hist["metrics"].get(d["n_metrics"], 0) + 1
@@ -742,10 +789,273 @@ def _short(dump):
     return dict(n_sent=len(dump[0]), first=dump[0][:2], objective=dump[3], fdim=dump[4])
 
 
+# =============================================================================================== shipped models
+class Skip(Exception):
+    pass
+
+
+def shipped_files():
+    import glob
+    import os
+    from .common import REPO
+    ex = sorted(p for p in glob.glob(os.path.join(REPO, "PEPit", "examples", "*", "*.py"))
+                if not p.endswith("__init__.py"))
+    cx = sorted(p for p in glob.glob(os.path.join(REPO, "tests", "additional_complexified_examples_tests", "*.py"))
+                if not p.endswith("__init__.py"))
+    return [os.path.relpath(p, REPO) for p in ex + cx]
+
+
+def load_shipped(rel):
+    """-> (wc function, kwargs of the call in the __main__ block)"""
+    import ast
+    import importlib.util
+    import inspect
+    import os
+    from .common import REPO
+    from . import concrete
+    path = os.path.join(REPO, rel)
+    tree = ast.parse(open(path).read(), path)
+    main_block = None
+    fname = None
+    for node in tree.body:
+        if isinstance(node, ast.If) and isinstance(node.test, ast.Compare) and isinstance(node.test.left, ast.Name) \
+                and node.test.left.id == "__name__":
+            main_block = node
+        if isinstance(node, ast.FunctionDef) and node.name.startswith("wc_"):
+            fname = node.name
+    if fname is None:
+        raise Skip("no wc_* function")
+    if main_block is None:
+        raise Skip("no __main__ block")
+    spec = importlib.util.spec_from_file_location("c05_shipped_" + os.path.basename(rel)[:-3], path)
+    mod = importlib.util.module_from_spec(spec)
+    try:
+        spec.loader.exec_module(mod)
+    except Exception as e:
+        raise Skip("import failed: %r" % (e,))
+    kwargs = concrete.main_kwargs(main_block, fname, dict(vars(mod)))
+    if kwargs is None:
+        raise Skip("arguments of the __main__ call are not literal keyword arguments")
+    fn = getattr(mod, fname)
+    params = inspect.signature(fn).parameters
+    kwargs = dict(kwargs)
+    if "verbose" in params:
+        kwargs["verbose"] = -1
+    if "wrapper" in params:
+        from . import recording as R
+        kwargs["wrapper"] = R.NAME
+    return fn, kwargs
+
+
+def run_shipped(rel):
+    """-> list of recorded solves [dict(lit, dump, problem, n_sent, ...)]; raises Skip"""
+    import io
+    import contextlib
+    from . import recording as R
+    fn, kwargs = load_shipped(rel)
+    solves = []
+
+    def handler(pep, orig):
+        snap, w = record_solve(pep, solve=orig)
+        problem = None
+        if snap["returned"] is not None:
+            problem = dict(kind="recording-early-exit-failed")
+        dump = recorded_dump(pep, w)
+        if problem is None:
+            problem = multiset_check(pep, snap, w)
+        if problem is None:
+            problem = regeneration_check(snap)
+        solves.append(dict(snap=snap, lit=None, dump=dump, problem=problem,
+                           n_sent=len(dump[0]) if isinstance(dump, list) else 0,
+                           n_lmi=sum(1 for it in dump[0] if it[0] == 1) if isinstance(dump, list) else 0,
+                           n_functions=len(snap["funcs"]), n_metrics=len(snap["metrics"]),
+                           n_partitions=len(snap["parts"])))
+        return None
+    crash = None
+    with R.InterceptSolve(handler), warnings.catch_warnings(), contextlib.redirect_stdout(io.StringIO()):
+        warnings.simplefilter("ignore")
+        try:
+            fn(**kwargs)
+        except Exception as e:      # the example formats / post-processes a value that is None here
+            crash = repr(e)[:200]
+    if not solves:
+        raise Skip("no solve was reached: %s" % crash)
+    return solves, crash
+
+
+class _Tbl(object):
+    """distinct decomposition dictionaries of one recorded solve, each written once in the generated Coq file"""
+    def __init__(self):
+        self.index = {}
+        self.items = []
+
+    def ref(self, ed):
+        key = tuple((tuple(k), v.v) for k, v in ed)
+        if key not in self.index:
+            self.index[key] = len(self.items)
+            self.items.append(ed)
+        return self.index[key]
+
+
+def _tbl_model(snap, tb):
+    E = lambda ed: "(T %d)" % tb.ref(ed)
+    cons = lambda c: "(%s, %s)" % (E(c[0]), "Ineq" if c[1] == 0 else "Equ")
+    psd = lambda rows: coq_list([coq_list([E(e) for e in row]) for row in rows])
+    funcs = []
+    for k, fs in enumerate(snap["funcs"]):
+        funcs.append("mkFunc %s %s %s %s %s %s %s %s %s" % (
+            coq_nat(k), "true" if fs["is_leaf"] else "false",
+            coq_list([cons(c) for c in fs["class_cons_old"]]), coq_list([psd(p) for p in fs["class_psd_old"]]),
+            coq_list([cons(c) for c in fs["class_cons"]]), coq_list([psd(p) for p in fs["class_psd"]]),
+            coq_nat(fs["fresh"]), coq_list([cons(c) for c in fs["cons"]]), coq_list([psd(p) for p in fs["psd"]])))
+    parts = ["mkPart %s %s %s" % (coq_nat(k), coq_list([cons(c) for c in ps["cons_old"]]),
+                                 coq_list([cons(c) for c in ps["cons"]])) for k, ps in enumerate(snap["parts"])]
+    return "mkModel %s %s %s %s %s %s %s %s" % (
+        coq_list([E(e) for e in snap["metrics"]]), coq_list([cons(c) for c in snap["cons"]]),
+        coq_list([psd(p) for p in snap["psd"]]), coq_list(funcs), coq_list(parts), coq_nat(snap["expr_ctr"]),
+        coq_list([cons(c) for c in snap["track_c_old"]]), coq_list([psd(p) for p in snap["track_p_old"]]))
+
+
+def _tbl_dump(dump, tb):
+    if not isinstance(dump, list):
+        return 'DS "%s"' % dump
+    E = lambda ed: "dump_edict (T %d)" % tb.ref(ed)
+    cons = lambda c: "DL [%s; DZ %d%%Z]" % (E(c[0]), c[1])
+    psd = lambda rows: "DL " + coq_list(["DL " + coq_list([E(e) for e in row]) for row in rows])
+    sent = ["DL [DZ %d%%Z; %s]" % (it[0], cons(it[1]) if it[0] == 0 else psd(it[1])) for it in dump[0]]
+    return "DL [DL %s; DL %s; DL %s; DZ %d%%Z; DZ %d%%Z]" % (
+        coq_list(sent), coq_list([cons(c) for c in dump[1]]), coq_list([psd(p) for p in dump[2]]), dump[3], dump[4])
+
+
+def run_shared_cases(name, cases):
+    """cases: [(snapshot, recorded dump)].  One Coq file per case: the table of distinct dictionaries, the model and
+    the expected dump written over that table, compared by D_eqb under vm_compute.  Returns indices that differ."""
+    import os
+    import re
+    import subprocess
+    from .common import workdir, COQ, NPROC, CoqError
+    wd = workdir()
+    jobs = []
+    for k, (snap, dump) in enumerate(cases):
+        tb = _Tbl()
+        model = _tbl_model(snap, tb)
+        expd = _tbl_dump(dump, tb)
+        path = os.path.join(wd, "%s_%d.v" % (name, k))
+        with open(path, "w") as f:
+            f.write("From Coq Require Import List QArith ZArith String Bool.\n")
+            f.write("From PV Require Import Model.Dict Model.Terms Model.Dump.\n" + "\n".join(IMPORTS) + "\n")
+            f.write("Import ListNotations.\nOpen Scope string_scope.\n")
+            # number notations are the expensive part of elaborating a literal: every distinct key and every
+            # distinct rational is written once, the dictionaries only mention their names
+            kn, qn = {}, {}
+            rows = []
+            for ed in tb.items:
+                ent = []
+                for key, v in ed:
+                    kk = C.coq_ek(key)
+                    qq = coq_q(v.v)
+                    if kk not in kn:
+                        kn[kk] = "k%d" % len(kn)
+                    if qq not in qn:
+                        qn[qq] = "q%d" % len(qn)
+                    ent.append("(%s, %s)" % (kn[kk], qn[qq]))
+                rows.append("[" + "; ".join(ent) + "]")
+            for kk, nm in kn.items():
+                f.write("Definition %s : ekey := %s.\n" % (nm, kk))
+            for qq, nm in qn.items():
+                f.write("Definition %s : Q := %s.\n" % (nm, qq))
+            f.write("Definition tbl : list edict := [\n%s\n].\n" % ";\n".join(rows))
+            f.write("Definition T (k : nat) : edict := nth k tbl [].\n")
+            f.write("Definition inp : model := %s.\n" % model)
+            f.write("Definition expd : D := %s.\n" % expd)
+            f.write("Definition result := Eval vm_compute in (D_eqb (dump_result (collect solve_plan inp)) expd).\n")
+            f.write("Print result.\n")
+        jobs.append((k, path, os.path.getsize(path)))
+    bad = []
+    pending = sorted(jobs, key=lambda j: -j[2])      # largest first
+    running = []
+    while pending or running:
+        while pending and len(running) < NPROC:
+            k, path, _ = pending.pop(0)
+            running.append((k, path, subprocess.Popen(["coqc", "-R", COQ, "PV", "-w", "-all", path],
+                                                      stdout=subprocess.PIPE, stderr=subprocess.PIPE, text=True, cwd=wd)))
+        k, path, proc = running.pop(0)
+        out, err = proc.communicate()
+        if proc.returncode != 0:
+            raise CoqError("coqc failed on %s:\n%s\n%s" % (path, out[-1500:], err[-2500:]))
+        m = re.search(r"result\s*=\s*(true|false)", out)
+        if not m:
+            raise CoqError("unparsable coqc output for %s: %s" % (path, out[-1500:]))
+        if m.group(1) == "false":
+            bad.append(k)
+    return sorted(bad)
+
+
+def stream_shipped(tier, seed, corpus):
+    """every file is run and checked by the implementation-only oracle (cheap); the comparison with the model is
+    made on all recorded solves (thorough) or on a seeded subset of 25 files (quick) that contains every file with
+    several metrics, LMIs or a partition (up to 15) and is filled with random others of at most 300 items"""
+    files = shipped_files()
+    files = [c["example"] for c in corpus if c.get("kind") == "shipped" and c["example"] in files] + files
+    recorded, problems, skipped = [], [], {}
+    n_after_crash = 0
+    for rel in files:
+        try:
+            solves, crash = run_shipped(rel)
+        except Skip as e:
+            skipped[rel] = str(e)
+            continue
+        n_after_crash += int(crash is not None)
+        for k, r in enumerate(solves):
+            if r["problem"]:
+                problems.append(dict(example=rel, solve_index=k, **r["problem"]))
+            recorded.append((rel, k, r))
+    if tier == "quick":
+        rng = random.Random(seed * 31 + 55)
+        by_file = {}
+        for rel, k, r in recorded:
+            by_file.setdefault(rel, []).append(r)
+        featured = sorted(rel for rel, rs in by_file.items()
+                          if any(r["n_metrics"] > 1 or r["n_lmi"] > 0 or r["n_partitions"] > 0 for r in rs)
+                          and all(r["n_sent"] <= 300 for r in rs))
+        rng.shuffle(featured)
+        chosen = featured[:15]
+        rest = sorted(rel for rel, rs in by_file.items() if rel not in chosen and all(r["n_sent"] <= 300 for r in rs))
+        chosen += rng.sample(rest, min(len(rest), 25 - len(chosen)))
+        chosen = set(chosen)
+    else:
+        chosen = set(rel for rel, _, _ in recorded)
+    keep = [(rel, k, r) for rel, k, r in recorded if rel in chosen]
+    cases = [(r["snap"], r["dump"]) for _, _, r in keep]
+    sizes = [r["n_sent"] for _, _, r in keep]
+    bad = run_shared_cases("c05s", cases) if cases else []
+    mism = [dict(kind="model-differs", example=keep[i][0], solve_index=keep[i][1],
+                 implementation=_short(keep[i][2]["dump"]),
+                 model=model_output(IMPORTS, RUN_COL, coq_model(cases[i][0]))[:3000]) for i in bad[:3]]
+    return dict(name="shipped-models", evaluations=len(cases),
+                distinct_nontrivial=len(set(rel for rel, _, r in keep if r["n_sent"] >= 4)),
+                rule="recorded solves of the shipped example files (PEPit/examples, 83) and complexified models "
+                     "(tests/additional_complexified_examples_tests, 13): wc_* called with the arguments of its "
+                     "__main__ block, PEP.solve routed to the recording wrapper.  Every file is checked by the "
+                     "implementation-only oracle; evaluations = recorded solves compared with Model/Collect.v on the "
+                     "generated plan (quick: seeded subset of 25 files containing the multi-metric / LMI / partition "
+                     "ones; thorough: all); distinct_nontrivial = compared files with at least 4 items sent",
+                mismatches=mism, n_mismatch=len(bad), problems=problems[:5], n_problems=len(problems),
+                samples=[dict(example=rel, solve_index=k, first_items=_short(r["dump"])) for rel, k, r in keep[:2]],
+                distribution=dict(files=len(set(files)), files_recorded=len(set(rel for rel, _, _ in recorded)),
+                                  solves_checked_by_oracle=len(recorded), files_compared_with_model=len(chosen),
+                                  skipped=skipped, crashed_after_solve=n_after_crash,
+                                  sent_min=min(sizes) if sizes else 0, sent_max=max(sizes) if sizes else 0,
+                                  lmi_items=sum(r["n_lmi"] for _, _, r in keep),
+                                  with_partition=sum(1 for _, _, r in keep if r["n_partitions"]),
+                                  multi_metric=sum(1 for _, _, r in keep if r["n_metrics"] > 1)))
+
+
 # =============================================================================================== driver API
 def correspondence(tier, seed, corpus=()):
     corpus = list(corpus or [])
-    return [stream_matrices(tier, seed, corpus)] + stream_programs(tier, seed, corpus)
+    return [stream_matrices(tier, seed, corpus)] + stream_programs(tier, seed, corpus) + \
+        [stream_shipped(tier, seed, corpus)]
 
 
 def search(tier, seed):
@@ -786,7 +1096,7 @@ def is_known(payload, known):
     for k in known:
         tr = k.get("trigger", {})
         if tr.get("kind") and tr.get("kind") == payload.get("kind") and \
-                all(payload.get(f) == v for f, v in tr.items() if f in ("tree", "np", "nx", "case_seed")):
+                all(payload.get(f) == v for f, v in tr.items() if f in ("tree", "np", "nx", "case_seed", "example")):
             return k["id"]
     return None
 
@@ -803,6 +1113,16 @@ def replay(payload):
         if matrices_semantic_check(dump, items, nm, rng):
             return True
         return bool(run_cases("c05r", IMPORTS, RUN_MAT, [(lit, dump)], input_type=TYPE_MAT))
+    if "example" in payload:
+        try:
+            solves, _ = run_shipped(payload["example"])
+        except Skip:
+            return False
+        except Exception:
+            return True
+        if any(r["problem"] for r in solves):
+            return True
+        return bool(run_shared_cases("c05r", [(r["snap"], r["dump"]) for r in solves]))
     if "case_seed" in payload:
         try:
             r = run_program(payload["case_seed"], with_cvxpy=True)
